@@ -111,7 +111,6 @@ func ErrValueTests(p *load.Program, inPkg func(string) bool) []ErrValueSite {
 	return out
 }
 
-
 // condTests: the condition is v itself, its negation, or a comparison of v with a constant / nil.
 func condTests(c ssa.Value, v ssa.Value, depth int) bool {
 	if depth > 3 {
